@@ -107,6 +107,14 @@ fn apply_setup(ctx: &mut ExecCtx, req: &Value, fresh: bool) -> Result<(), String
             ctx.state.set_reg(reg, v.as_u64().ok_or("reg value")? as u32);
         }
     }
+    // the same flags once more, written one by one (architecturally the same state, reached through the FC / FZ aliases)
+    if req.get("flagwise").and_then(|c| c.as_bool()).unwrap_or(false)
+        || req.get("hidden").and_then(|h| h.get("flagwise")).and_then(|c| c.as_bool()).unwrap_or(false)
+    {
+        let f = ctx.state.get_reg(RegName::F);
+        ctx.state.set_reg(RegName::FC, f & 1);
+        ctx.state.set_reg(RegName::FZ, (f >> 1) & 1);
+    }
     if let Some(mem) = req.get("mem").and_then(|m| m.as_array()) {
         for p in mem {
             ctx.bus.mem.insert(p[0].as_u64().ok_or("mem addr")? as u32, p[1].as_u64().ok_or("mem val")? as u8);
